@@ -379,6 +379,10 @@ pub enum SteerItem {
     /// word-boundary pattern repeated over `lines` consecutive lines: short runs (`pre`, the last one ending at
     /// `boundary - 1`) followed by a long uniform run of `post` modules starting exactly at `boundary`
     Boundary { vertical: bool, index: usize, lines: usize, boundary: usize, pre: Vec<usize>, post: usize, first: bool },
+    /// machine-word edge patterns on `lines` consecutive lines: the word [k*word, (k+1)*word) holds `val` everywhere except
+    /// its LAST (or FIRST) position, which holds the opposite, and the position just beyond it holds `val` again - what
+    /// trailing_zeros / leading_zeros based scanners see as "skip word - 1"
+    WordEdge { vertical: bool, index: usize, lines: usize, word: usize, k: usize, at_end: bool, val: bool },
     /// the whole symbol as one texture: kind 0..=7 the ISO mask pattern of that number, 8 uniform, 9 2x2 blocks in
     /// chequerboard arrangement, 10 vertical stripes of width 5, 11 the 1011101 finder ratio repeated along every row;
     /// `invert` flips it. A uniform texture steered under mask m makes candidate m a flat symbol (the extreme of penalty
@@ -441,6 +445,8 @@ pub fn steer_item(n: usize) -> BoxedStrategy<SteerItem> {
             .prop_map(|(vertical, index, start, first, runs)| SteerItem::Runs { vertical, index, start, first, runs }),
         1 => (any::<bool>(), edge_index(n), word_pos(n)).prop_map(|(vertical, index, start)| SteerItem::Finder { vertical, index, start }),
         2 => (edge_index(n), word_pos(n), 1usize..6, 1usize..40, any::<bool>()).prop_map(|(r0, c0, h, w, val)| SteerItem::Rect { r0, c0, h, w, val }),
+        2 => (any::<bool>(), 9usize..n.max(10), 1usize..12, prop_oneof![Just(8usize), Just(16), Just(32), Just(64)], 0usize..6, any::<bool>(), any::<bool>())
+            .prop_map(|(vertical, index, lines, word, k, at_end, val)| SteerItem::WordEdge { vertical, index, lines, word, k, at_end, val }),
         3 => (any::<bool>(), 9usize..n.max(10), 1usize..24, prop_oneof![Just(8usize), Just(16), Just(32), Just(64), Just(96), Just(128)], vec(1usize..=8, 1..4),
               prop_oneof![Just(15usize), Just(16), Just(31), Just(32), Just(33), Just(63), Just(64), Just(65), Just(100)], any::<bool>())
             .prop_map(|(vertical, index, lines, boundary, pre, post, first)| SteerItem::Boundary { vertical, index, lines, boundary, pre, post, first }),
@@ -498,6 +504,21 @@ pub fn steer_constraints(n: usize, items: &[SteerItem]) -> Vec<(usize, usize, bo
                             put(*vertical, index + l, p, v);
                             p += 1;
                         }
+                    }
+                }
+            }
+            SteerItem::WordEdge { vertical, index, lines, word, k, at_end, val } => {
+                let lo = k * word;
+                for l in 0..*lines {
+                    for p in lo..lo + word {
+                        let edge = if *at_end { p == lo + word - 1 } else { p == lo };
+                        put(*vertical, index + l, p, *val != edge);
+                    }
+                    // the neighbour beyond the odd position
+                    if *at_end {
+                        put(*vertical, index + l, lo + word, *val);
+                    } else if lo > 0 {
+                        put(*vertical, index + l, lo - 1, *val);
                     }
                 }
             }
